@@ -56,7 +56,8 @@ SubOf(c, base) == c = base \/ (c = "SubA" /\ base = "A")
 
 \* ---- configurations ------------------------------------------------------------------
 Cfg0 == [lo |-> NoB, hi |-> NoB, il |-> TRUE, ih |-> TRUE, an |-> FALSE, len |-> 0, rx |-> FALSE,
-         it |-> "none", objs |-> {}, cos |-> TRUE, cls |-> "A", isi |-> TRUE, named |-> FALSE]
+         it |-> "none", objs |-> {}, cos |-> TRUE, cls |-> "A", isi |-> TRUE, named |-> FALSE,
+         dd |-> FALSE]      \* dd: the objects were declared as a dictionary {"l" + o : o} -- labels are not objects
 BOOL == {TRUE, FALSE}
 BoundCfgs(los, his) ==
   {[Cfg0 EXCEPT !.lo = lo, !.hi = hi, !.il = il, !.ih = ih, !.an = an] :
@@ -67,7 +68,7 @@ Cfgs(t) ==
   CASE t \in {"Number", "Integer"} -> Norm(BoundCfgs({NoB, 0, 2}, {NoB, 4}))
     [] t = "Magnitude" -> {[Cfg0 EXCEPT !.lo = 0, !.hi = 2, !.an = an] : an \in BOOL}
     [] t \in {"Date", "CalendarDate"} -> Norm(BoundCfgs({NoB, 4}, {NoB, 8}))
-    [] t \in {"Boolean", "Callable", "Dict", "Parameter", "Event"} -> {[Cfg0 EXCEPT !.an = an] : an \in BOOL}
+    [] t \in {"Boolean", "Callable", "Action", "Dict", "Parameter", "Event"} -> {[Cfg0 EXCEPT !.an = an] : an \in BOOL}
     [] t \in {"String", "Bytes"} -> {[Cfg0 EXCEPT !.an = an, !.rx = rx] : an \in BOOL, rx \in BOOL}
     [] t \in {"Tuple", "NumericTuple"} -> {[Cfg0 EXCEPT !.an = an, !.len = l] : an \in BOOL, l \in {2, 3}}
     [] t = "XYCoordinates" -> {[Cfg0 EXCEPT !.an = an, !.len = 2] : an \in BOOL}
@@ -77,7 +78,7 @@ Cfgs(t) ==
                          an \in BOOL, lo \in {NoB, 1}, hi \in {NoB, 2}, it \in {"none", "int", "str"}}
     [] t = "HookList" -> {[Cfg0 EXCEPT !.an = an, !.lo = lo, !.hi = hi] : an \in BOOL, lo \in {NoB, 1}, hi \in {NoB, 2}}
     [] t \in {"Selector", "ListSelector"} ->
-          {[Cfg0 EXCEPT !.an = an, !.objs = o, !.cos = cos] : an \in BOOL, o \in {{"a", "b"}, {"a"}}, cos \in BOOL}
+          {[Cfg0 EXCEPT !.an = an, !.objs = o, !.cos = cos, !.dd = dd] : an \in BOOL, o \in {{"a", "b"}, {"a"}}, cos \in BOOL, dd \in BOOL}
     [] t = "ClassSelector" -> {[Cfg0 EXCEPT !.an = an, !.cls = c, !.isi = isi] : an \in BOOL, c \in {"A", "AorOther"}, isi \in BOOL}
     [] t = "Color" -> {[Cfg0 EXCEPT !.an = an, !.named = n] : an \in BOOL, n \in BOOL}
 
@@ -93,7 +94,7 @@ Cands(t) ==
     [] t \in {"Boolean", "Event"} -> {Bo(TRUE), Bo(FALSE), None, I(0), I(1), S("a1"), F(2)}
     [] t = "String" -> {S("a1"), S("zz"), S(""), None, B("a1"), I(1), Lst(<<>>)}
     [] t = "Bytes" -> {B("a1"), B("zz"), B(""), None, S("a1"), I(1)}
-    [] t = "Callable" -> {Call, Cls("A"), None, I(1), S("a1")}
+    [] t \in {"Callable", "Action"} -> {Call, Cls("A"), None, I(1), S("a1")}
     [] t = "Dict" -> {Dct, None, Lst(<<>>), I(1), Tup(<<>>)}
     [] t = "Parameter" -> {None, I(1), S("a1"), Lst(<<>>), Call}
     [] t = "Tuple" -> {Tup(<<I(1), I(2)>>), Tup(<<I(1), S("a1"), None>>), Tup(<<I(1)>>), Tup(<<>>),
@@ -115,8 +116,8 @@ Cands(t) ==
                       Lst(<<I(1), None>>), Lst(<<None, S("a1")>>), Lst(<<None>>)}
     [] t = "HookList" -> {Lst(<<>>), Lst(<<Call>>), Lst(<<Call, Call>>), Lst(<<Call, Call, Call>>), Lst(<<Call, I(1)>>), Lst(<<I(1)>>),
                           Tup(<<Call>>), None, Call}
-    [] t = "Selector" -> {S("a"), S("b"), S("c"), None, I(1)}
-    [] t = "ListSelector" -> {Lst(<<>>), Lst(<<S("a")>>), Lst(<<S("a"), S("b")>>), Lst(<<S("c")>>), Lst(<<S("a"), S("c")>>), None, S("a"), Tup(<<S("a")>>)}
+    [] t = "Selector" -> {S("a"), S("b"), S("c"), S("la"), None, I(1)}
+    [] t = "ListSelector" -> {Lst(<<>>), Lst(<<S("a")>>), Lst(<<S("a"), S("b")>>), Lst(<<S("c")>>), Lst(<<S("a"), S("c")>>), Lst(<<S("la")>>), Lst(<<S("a"), S("la")>>), None, S("a"), Tup(<<S("a")>>)}
     [] t = "ClassSelector" -> {Inst("A"), Inst("SubA"), Inst("Other"), Inst("Third"), Cls("A"), Cls("SubA"), Cls("Other"), Cls("Third"), None}
     [] t = "Color" -> {S("#ff0000"), S("#abc"), S("ff0000"), S("red"), S("Red"), S("#ff00"), S("notacolor"), S(""), None, I(1)}
 
@@ -136,7 +137,7 @@ Accepts(t, c, v) ==
     [] t \in {"Boolean", "Event"} -> v.k = "bool"
     [] t = "String" -> v.k = "str" /\ (c.rx => Matches(v.s))
     [] t = "Bytes" -> v.k = "bytes" /\ (c.rx => Matches(v.s))
-    [] t = "Callable" -> v.k \in {"callable", "class"}
+    [] t \in {"Callable", "Action"} -> v.k \in {"callable", "class"}
     [] t = "Dict" -> v.k = "dict"
     [] t = "Tuple" -> v.k = "tuple" /\ Len(v.items) = c.len
     [] t \in {"NumericTuple", "XYCoordinates"} -> v.k = "tuple" /\ Len(v.items) = c.len /\ All(v.items, IsNum)
